@@ -2222,3 +2222,115 @@ def torch_stack(interp, st, args, kwargs, node):
 
 
 LIBFUNCS.update({"torch.stack": torch_stack})
+
+
+# ----------------------------------------------------------------------------- token lists: [a, *xs, b], .count, .index (C06/C07 sequencing)
+def _scalar_z3(x, node=None):
+    I = _I()
+    if isinstance(x, I.ObjMethod):
+        x = x.value
+    if isinstance(x, str):
+        return z3.StringVal(x)
+    if isinstance(x, bool) or (isinstance(x, (int, float)) and not is_sym(x)):
+        return to_z3(x)
+    if is_sym(x):
+        return x
+    raise Outside(f"list of {type(x).__name__} elements mixed with a symbolic-length list", node)
+
+
+def symlist_concat(interp, st, parts, node):
+    """[e0, *xs, e1, *ys, ...] / xs + ys with at least one symbolic-length part: the list whose entries are those of the parts in order.
+    parts: ("one", scalar) or ("many", SymList | python list).  Scalar elements (strings / ints) only."""
+    segs = []  # (length, getter(k_local) -> z3 scalar)
+    tmpl = None
+    for kind, v in parts:
+        if kind == "one":
+            z = _scalar_z3(v, node)
+            segs.append((1, (lambda z_: (lambda j: z_))(z)))
+            tmpl = tmpl if tmpl is not None else z
+        elif isinstance(v, SymList):
+            lv = V.leaves_of(v.tmpl)
+            if len(lv) != 1 or not is_sym(lv[0]):
+                raise Outside("concatenation of symbolic-length lists of structured elements", node)
+            segs.append((v.length, (lambda a_: (lambda j: z3.Select(a_, j)))(v.arrs[0])))
+            tmpl = lv[0]
+        elif isinstance(v, (list, tuple)):
+            for e in v:
+                z = _scalar_z3(e, node)
+                segs.append((1, (lambda z_: (lambda j: z_))(z)))
+                tmpl = tmpl if tmpl is not None else z
+        else:
+            raise Outside(f"concatenation with {type(v).__name__}", node)
+    if tmpl is None:
+        return []
+    k = z3.Int(V.fresh_name("ck"))
+    offs = [0]
+    for ln, _ in segs:
+        offs.append(_M().s_add(offs[-1], ln))
+    body = None
+    for i in range(len(segs) - 1, -1, -1):
+        val = segs[i][1](k - to_z3(as_int(offs[i])))
+        if val.sort() != tmpl.sort():
+            raise Outside("concatenation of lists of different element sorts", node)
+        body = val if body is None else z3.If(k < to_z3(as_int(offs[i + 1])), val, body)
+    for ln, _ in segs:
+        if is_sym(ln):
+            st.assume(to_z3(ln) >= 0)
+    return SymList(z3.Const(V.fresh_name("cat_elem"), tmpl.sort()), [z3.Lambda([k], body)], offs[-1])
+
+
+def _as_scalar_symlist(base, node):
+    if isinstance(base, SymList):
+        lv = V.leaves_of(base.tmpl)
+        if len(lv) == 1 and is_sym(lv[0]):
+            return base.arrs[0], base.length
+        raise Outside("count/index on a list of structured elements", node)
+    if isinstance(base, (list, tuple)):
+        zs = [_scalar_z3(e, node) for e in base]
+        if not zs:
+            return None, 0
+        arr = z3.K(z3.IntSort(), zs[0])
+        for i, z in enumerate(zs):
+            arr = z3.Store(arr, i, z)
+        return arr, len(zs)
+    raise Outside(f"count/index on {type(base).__name__}", node)
+
+
+def m_list_count(interp, st, base, base_node, args, kwargs, node):
+    """xs.count(x): a number c with 0 <= c <= len, c == 0 iff x does not occur, c == 1 iff it occurs exactly once (what is known of it)"""
+    arr, n = _as_scalar_symlist(base, node)
+    if arr is None:
+        return 0
+    x = _scalar_z3(args[0], node)
+    nz = to_z3(as_int(n))
+    c = z3.Int(V.fresh_name("count"))
+    j, j2 = z3.Int(V.fresh_name("cj")), z3.Int(V.fresh_name("cj"))
+    occ = lambda t: z3.And(t >= 0, t < nz, z3.Select(arr, t) == x)
+    st.assume(z3.And(c >= 0, c <= nz))
+    st.assume((c == 0) == z3.Not(z3.Exists([j], occ(j))))
+    st.assume((c == 1) == z3.And(z3.Exists([j], occ(j)), z3.ForAll([j, j2], z3.Implies(z3.And(occ(j), occ(j2)), j == j2))))
+    return c
+
+
+def m_list_index(interp, st, base, base_node, args, kwargs, node):
+    """xs.index(x): the first position of x; ValueError when x does not occur"""
+    if len(args) != 1 or kwargs:
+        raise Outside("list.index with start/stop", node)
+    arr, n = _as_scalar_symlist(base, node)
+    if arr is None:
+        interp.raise_if(st, True, "ValueError", node)
+        return 0
+    x = _scalar_z3(args[0], node)
+    nz = to_z3(as_int(n))
+    j = z3.Int(V.fresh_name("ij"))
+    present = z3.Exists([j], z3.And(j >= 0, j < nz, z3.Select(arr, j) == x))
+    interp.raise_if(st, z3.Not(present), "ValueError", node)
+    i = z3.Int(V.fresh_name("index"))
+    st.assume(z3.And(i >= 0, i < nz, z3.Select(arr, i) == x, z3.ForAll([j], z3.Implies(z3.And(j >= 0, j < i), z3.Select(arr, j) != x))))
+    return i
+
+
+METHODS[("SymList", "count")] = m_list_count
+METHODS[("SymList", "index")] = m_list_index
+METHODS[("list", "count")] = m_list_count
+METHODS[("list", "index")] = m_list_index
